@@ -596,6 +596,9 @@ func (w *Worker) runPath(fn *ssa.Function, it workItem, fuel int64, exp *Explore
 		case "inconclusive":
 			st.Inconclusive++
 			st.InconclMsgs[res.Msg]++
+			if os.Getenv("SYMGO_VERBOSE") != "" {
+				fmt.Fprintf(os.Stderr, "inconclusive path: %s [%s]\n", res.Msg, i.choiceSummary())
+			}
 		case "exit", "deadlock":
 			st.Inconclusive++
 			st.InconclMsgs["path ended by "+res.Kind+" ("+res.Msg+") before the harness finished"]++
